@@ -27,6 +27,12 @@ def gen_cases(tier, rng):
         for d in (0, 1):
             for k in range(per):
                 out.append({"n": n, "allow_delay": d, "seed": rng.u64(), "k": k})
+    # the same with the caller-selected clock domain (`domain=m.d.usb`) next to a faster, unrelated
+    # `sync` clock: the stretch must be counted in cycles of the requested domain
+    for n in ([2, 3, 4, 5, 8, 17] if tier == "quick" else [1, 2, 3, 4, 5, 7, 8, 9, 16, 17, 33]):
+        for d in (0, 1):
+            for k in range(2 if tier == "quick" else 6):
+                out.append({"n": n, "allow_delay": d, "seed": rng.u64(), "k": k, "dom": 1})
     return out
 
 
@@ -57,9 +63,13 @@ def run_case(desc):
     n, d = desc["n"], bool(desc["allow_delay"])
     m = Module()
     strobe = Signal()
-    out = stretch_strobe_signal(m, strobe, to_cycles=n, allow_delay=d)
     stim = desc.get("stimulus") or make_stimulus(n, Rng(desc["seed"]), desc.get("k", 0))
-    rows = sim.run_cycles(m, [strobe], [out], stim)
+    if desc.get("dom"):
+        out = stretch_strobe_signal(m, strobe, to_cycles=n, allow_delay=d, domain=m.d.usb)
+        rows = sim.run_cycles(m, [strobe], [out], stim, domain="usb", extra_clocks={"sync": 1e-6 / 3.7})
+    else:
+        out = stretch_strobe_signal(m, strobe, to_cycles=n, allow_delay=d)
+        rows = sim.run_cycles(m, [strobe], [out], stim)
     # ---- property monitor on the real trace (independent of the Lean model)
     fails = []
     delay = 1 if (d and n > 1) else 0
@@ -71,5 +81,5 @@ def run_case(desc):
                           "to_cycles=%d allow_delay=%d: output=%d at cycle %d but a strobe within the window says %d"
                           % (n, d, o, t, want)})
             break
-    tags = ["n=%d" % n if n < 4 else "n>=4", "delay=%d" % d]
+    tags = ["n=%d" % n if n < 4 else "n>=4", "delay=%d" % d, "domain=usb" if desc.get("dom") else "domain=sync"]
     return Case([n, int(d)], stim, rows, fails, tags, desc, ["strobe"], ["output"])
